@@ -17,12 +17,63 @@ fn dot_table() -> Ranges {
     vec![(0, 9), (11, 12), (14, 0xD7FF), (0xE000, 0x10FFFF)]
 }
 
+/// A bracketed class made only of literals, ranges, nested such classes and set operations on
+/// them has a meaning that needs no Unicode data: its table is computed here, independently of the
+/// crate (regex-syntax's translation of the class to code point ranges). Classes with named items
+/// (`\d`, `[:alpha:]`, `\p{..}`) or with a verbatim `.` (finding F3) are not handled.
+pub fn native_table(text: &str) -> Option<Ranges> {
+    use regex_syntax::ast::{ClassSet, ClassSetItem, LiteralKind};
+    fn plain_item(i: &ClassSetItem) -> bool {
+        match i {
+            ClassSetItem::Empty(_) => true,
+            ClassSetItem::Literal(l) => !(l.c == '.' && matches!(l.kind, LiteralKind::Verbatim)),
+            ClassSetItem::Range(r) => {
+                !(r.start.c == '.' && matches!(r.start.kind, LiteralKind::Verbatim))
+                    && !(r.end.c == '.' && matches!(r.end.kind, LiteralKind::Verbatim))
+            }
+            ClassSetItem::Bracketed(b) => plain_set(&b.kind),
+            ClassSetItem::Union(u) => u.items.iter().all(plain_item),
+            ClassSetItem::Ascii(_) | ClassSetItem::Unicode(_) | ClassSetItem::Perl(_) => false,
+        }
+    }
+    fn plain_set(s: &ClassSet) -> bool {
+        match s {
+            ClassSet::Item(i) => plain_item(i),
+            ClassSet::BinaryOp(b) => plain_set(&b.lhs) && plain_set(&b.rhs),
+        }
+    }
+    let ast = Parser::new().parse(text).ok()?;
+    let Ast::ClassBracketed(b) = &ast else { return None };
+    if !plain_set(&b.kind) {
+        return None;
+    }
+    let hir = regex_syntax::hir::translate::Translator::new().translate(text, &ast).ok()?;
+    let regex_syntax::hir::HirKind::Class(regex_syntax::hir::Class::Unicode(cls)) = hir.kind() else { return None };
+    let mut out: Ranges = Vec::new();
+    for r in cls.ranges() {
+        let (lo, hi) = (r.start() as u32, r.end() as u32);
+        if lo <= 0xD7FF && hi >= 0xE000 {
+            out.push((lo, 0xD7FF));
+            out.push((0xE000, hi));
+        } else {
+            out.push((lo, hi));
+        }
+    }
+    Some(out)
+}
+
 impl RefCache {
-    /// The table of a class leaf: the set it denotes when used alone (stand-alone scanner with
+    /// The table of a class leaf: for plain bracketed classes the independently computed table
+    /// (`native_table`), otherwise the set it denotes when used alone (stand-alone scanner with
     /// that single pattern, enumerated exhaustively).
     pub fn class_leaf(&self, text: &str) -> Option<Arc<Ranges>> {
         if let Some(t) = self.map.lock().unwrap().get(text) {
             return t.clone();
+        }
+        if let Some(t) = native_table(text) {
+            let t = Some(Arc::new(t));
+            self.map.lock().unwrap().insert(text.to_string(), t.clone());
+            return t;
         }
         let mode = scnr::ScannerMode::new("R", vec![scnr::Pattern::new(text.to_string(), 0)], vec![]);
         let t = ScannerBuilder::new()
